@@ -425,7 +425,7 @@ def s2_run_names(w, job):
 
     def step(cmd, src, dst, want):
         before = pc.kvc_tree_snapshot(d)
-        r, _ = pc.kvc_run(w, argv_of(cmd, src, dst), env=env, cwd=d)
+        r, _ = pc.kvc_run(w, argv_of(cmd, src, dst), env=env, cwd=d, stdin=(s2_bytes(job["stdin"]) if job.get("stdin") else None))
         runs.append(r)
         after = pc.kvc_tree_snapshot(d)
         if r.rc != 0:
@@ -508,6 +508,35 @@ def s2_names_jobs(ctx):
     return jobs
 
 
+def r2_dash_name_jobs(ctx):
+    """names with a conventional SECOND meaning in other tools: a file literally called `-` (stdin/stdout elsewhere), `--`, `-o`,
+    `.`-relative spellings of them, as the input, as the -o value and as the decrypted file; with and without the `--`
+    separator where getopts allows it; standard input the null device or a pipe holding unrelated bytes.  The property is about
+    the NAMED file: it is what must be encrypted / decrypted, whatever is on standard input."""
+    rng = ctx.rng
+    full = ctx.thorough()
+    jobs = []
+
+    def add(inp, out, rt, dashdash, stdin):
+        n = rng.choice([1, 100, 1000, 5000, 70000])
+        if any(x.startswith("-") and x != "-" for x in (inp, out)):
+            dashdash = True          # a free argument with a leading dash (other than the lone `-`) needs the separator
+        jobs.append({"id": "dn%03d" % len(jobs), "p": s2_pspec(ctx, n), "pw": rng.choice(S2_PASSWORDS[1:4]), "inp": inp, "out": out, "rt": rt,
+                     "bystanders": [], "dashdash": dashdash, "stdin": (s2_pspec(ctx, rng.choice([1, 40, 3000])) if stdin else None)})
+    triples = [("-", "ct.ktl", "rt.txt"), ("pt.txt", "-", "rt.txt"), ("pt.txt", "ct.ktl", "-"), ("-", "-.ktl", "-.dec"),
+               ("./-", "ct.ktl", "rt.txt"), ("-", "./-.ktl", "sub/-")]
+    for t in triples:
+        for dd in (False, True):
+            for sin in (False, True):
+                if full or t == triples[0] or rng.random() < 0.5:
+                    add(t[0], t[1], t[2], dd, sin)
+    # names that need the separator
+    for t in [("--", "ct", "rt"), ("-o", "ct", "rt"), ("--env-pass", "ct", "rt"), ("-", "--", "-o")]:
+        if full or rng.random() < 0.5:
+            add(t[0], t[1], t[2], True, rng.random() < 0.5)
+    return jobs
+
+
 # =========================================================================== C02 driver
 def c02_cli_part(self, ctx):
     """C02 on the real `kestrel password encrypt|decrypt --env-pass`"""
@@ -558,6 +587,12 @@ def c02_cli_part(self, ctx):
         for job, v in zip(njobs, s2_pmap(lambda j: s2_run_names(w, j), njobs)):
             s2_record(ctx, "names", job, v, "C02 at the command line: round trip with input '%s', -o '%s', decrypted to '%s'"
                       % (job["inp"], job["out"], job["rt"]))
+        # D. file names with a second meaning elsewhere (`-`, `--`, `-o`), stdin null or unrelated bytes
+        djobs = r2_dash_name_jobs(ctx)
+        for job, v in zip(djobs, s2_pmap(lambda j: s2_run_names(w, j), djobs)):
+            s2_record(ctx, "names", job, v, "C02 at the command line: round trip with input '%s', -o '%s', decrypted to '%s'%s, stdin %s"
+                      % (job["inp"], job["out"], job["rt"], " after `--`" if job["dashdash"] else "",
+                         "a pipe with %d unrelated bytes" % job["stdin"]["len"] if job["stdin"] else "the null device"))
         if len(ctx.samples) < 10:
             ctx.samples.append({"cli": "kestrel password encrypt|decrypt --env-pass", "round_trips": len(jobs), "passwords": len(bases),
                                 "different_password_runs": len(pjobs), "name_pairs": len(njobs), "processes": w.nruns})
@@ -763,6 +798,106 @@ def c10_cli_part(self, ctx):
         w.close()
 
 
+# =========================================================================== C06: the command line and the library write/read ONE format
+R2_TEXT_PASSWORDS = ["hunter2", "caf\u00e9", "caf\u01e9", "\u00ff", "\u0100", "p\u00e4ss w\u00f6rd \u2713", "\u043f\u0430\u0440\u043e\u043b\u044c",
+                     "\u5bc6\u7801", "\U0001f511 key", "na\u00efve \u00a3\u20ac", "\u00e9" * 33, "\u05e9\u05dc\u05d5\u05dd"]
+
+
+def r2_text_password(rng):
+    """a random text password mixing ASCII with code points from U+0080..U+00FF (one byte when narrowed), U+0100..U+07FF,
+    the rest of the BMP and beyond"""
+    pools = [(0x21, 0x7e), (0x21, 0x7e), (0xa1, 0xff), (0x100, 0x7ff), (0x800, 0xd7ff), (0xe000, 0xfffd), (0x10000, 0x1ffff)]
+    out = []
+    for _ in range(rng.randrange(1, 12)):
+        lo, hi = rng.choice(pools)
+        out.append(chr(rng.randrange(lo, hi + 1)))
+    return "".join(out)
+
+
+def r2_run_crossfmt(w, job):
+    """job: id, p, pw (text), parts (chunking of the reference-written file).
+    (a) `kestrel password encrypt --env-pass` writes F: F must be, byte for byte, the documented format for the UTF-8 bytes of the
+    password (independent Python writer: OpenSSL scrypt + RFC 8439 transcription), with F's own salt;
+    (b) a reference-written file (same password bytes, chunked as job['parts']) must be decrypted by `kestrel password decrypt`."""
+    P = s2_bytes(job["p"])
+    pwb = job["pw"].encode("utf-8")
+    env = pc.env_pw(job["pw"])
+    tag = job["id"]
+    runs = []
+    w.write(tag + "_pt", P)
+    r1 = w.run(["password", "encrypt", tag + "_pt", "-o", tag + "_ct", "--env-pass"], env=env)
+    runs.append(r1)
+    F = w.read(tag + "_ct")
+    what = "password %r = UTF-8 %s, %d-byte plaintext" % (job["pw"], pwb.hex(), len(P))
+    if r1.rc != 0 or F is None or len(F) < 36:
+        return s2_verdict(False, "password encryption succeeds (%s)" % what, "exit %d, file %s, stderr %r" % (r1.rc, s2_show(F), r1.errtext()[-200:]), runs)
+    ref = props.r2_ref_pass_file(pwb, F[4:36], [P] if P else [])
+    if ref is not None and ref != F:
+        return s2_verdict(False, "the file written by `kestrel password encrypt` is the documented format for the password's UTF-8 bytes and the "
+                          "file's salt: magic, salt, chunks under scrypt(password, salt, 32768, 8, 1) (%s): %s" % (what, s2_show(ref, 60)),
+                          "%s; first difference at byte %d" % (s2_show(F, 60), s2_first_diff(F, ref)), runs)
+    salt = random.Random(job["p"]["seed"] ^ 0x5a17).randbytes(32)
+    G = props.r2_ref_pass_file(pwb, salt, props.r2_pieces(P, job["parts"]))
+    if G is not None:
+        w.write(tag + "_ref", G)
+        r2 = w.run(["password", "decrypt", tag + "_ref", "-o", tag + "_rt", "--env-pass"], env=env)
+        runs.append(r2)
+        R = w.read(tag + "_rt")
+        if r2.rc != 0 or R != P:
+            return s2_verdict(False, "`kestrel password decrypt` opens a conforming file written by the reference writer under the same password, "
+                              "chunks of %s bytes (%s)" % ("/".join(map(str, job["parts"])) or "0", what),
+                              "exit %d, output %s, stderr %r" % (r2.rc, s2_show(R), r2.errtext()[-200:]), runs)
+    return s2_verdict(True, runs=runs)
+
+
+def r2_c06_cli_part(self, ctx):
+    """C06 across entry points: files written by the real `kestrel password encrypt` are compared byte for byte with the
+    independent reference writer and handed to the LIBRARY and the Gallina model (pass_decrypt / pass_encrypt with the file's
+    salt, password = UTF-8 bytes); reference-written files go to `kestrel password decrypt`.  Passwords: ASCII, Latin-1 range,
+    U+0100.., other scripts, astral, random mixtures."""
+    if not os.path.exists(vlib.CLIDRV):
+        ctx.broken.append({"kind": "correspondence", "what": "clidrv was not built: command-line half of C06 not checked"})
+        return
+    rng = ctx.rng
+    full = ctx.thorough()
+    w = pc.World(prefix="kvR2_c06_")
+    try:
+        pws = list(R2_TEXT_PASSWORDS) if full else R2_TEXT_PASSWORDS[:3] + rng.sample(R2_TEXT_PASSWORDS[3:], 3)
+        pws += [r2_text_password(rng) for _ in range(12 if full else 3)]
+        jobs = []
+        for pw in pws:
+            if not s2_env_ok(pw):
+                continue
+            n = rng.choice([0, 1, 2, 17, 100, rng.randrange(2, 400)])
+            parts = props.r2_short_partition(rng, n, 65536, pieces=rng.choice([2, 3])) if n >= 3 else ([n] if n else [])
+            jobs.append({"id": "xf%03d" % len(jobs), "p": s2_pspec(ctx, n), "pw": pw, "parts": parts})
+        for job, v in zip(jobs, s2_pmap(lambda j: r2_run_crossfmt(w, j), jobs)):
+            s2_record(ctx, "crossfmt", job, v, "C06 across entry points: `kestrel password encrypt` under %r compared with the reference writer; "
+                      "a reference-written file given to `kestrel password decrypt`" % job["pw"])
+        # the same CLI-written files through the library and the model
+        cases = []
+        for job in jobs:
+            F = w.read(job["id"] + "_ct")
+            if F is None or len(F) < 36:
+                continue
+            P, pwb = s2_bytes(job["p"]), job["pw"].encode("utf-8")
+            cases.append(vlib.Case("pass_dec", pw=pwb, data=F, rs=rng.choice(["-", "c1,c1,c1,c1,c1", "c36,c16,c7"]),
+                                   oracle=props.ok_eq(P, "a file written by `kestrel password encrypt` under %r decrypts in the library under the "
+                                                      "password's UTF-8 bytes %s" % (job["pw"], pwb.hex())),
+                                   tags=["cli-written-file", "dec"]))
+
+            def same(res, F=F, job=job, pwb=pwb):
+                if res["code"] != 0 or res["out"] != F:
+                    return ("pass_encrypt with the salt of the command line's file and the UTF-8 bytes %s of %r writes the same %d bytes as the "
+                            "command line did" % (pwb.hex(), job["pw"], len(F)),
+                            res["outcome"] + " first difference at byte %d" % s2_first_diff(res["out"], F))
+                return None
+            cases.append(vlib.Case("pass_enc", pw=pwb, salt=F[4:36], data=P, oracle=same, tags=["cli-written-file", "enc"]))
+        self.run_cases(ctx, cases, model=True)
+    finally:
+        w.close()
+
+
 # =========================================================================== replay of a stored job
 def s2_replay(ctx, payload):
     d = payload["input"]
@@ -781,6 +916,8 @@ def s2_replay(ctx, payload):
             v = s2_run_roundtrip(w, job)
         elif part == "otherpw":
             v = s2_run_otherpw(w, job)
+        elif part == "crossfmt":
+            v = r2_run_crossfmt(w, job)
         else:
             v = s2_run_names(w, job)
     finally:
